@@ -1,8 +1,10 @@
 package main
 
 import (
+	"fmt"
 	"go/ast"
 	"go/types"
+	"path/filepath"
 	"sort"
 	"strings"
 
@@ -52,6 +54,8 @@ func runC16(w *World, r *Report) {
 	defer c16ArgumentNames(w, r)
 
 	c15FormatterNames(w, r, "R-C16-6")
+	c16StackedUnary(w, r)
+	c16RenderedTextNotEdited(w, r)
 	r.Rule("R-C16-1", "every ast node type constructed by the parser has a printer: a type-switch case or a typed parameter in the format*.go files", 60)
 	r.Rule("R-C16-2", "every field of an ast node that the parser writes (composite literal key or assignment) is read in the format*.go files", 150)
 	r.Rule("R-C16-3", "Children() completeness (same rule as R-C15-1)", 60)
@@ -454,5 +458,139 @@ func c16ArgumentNames(w *World, r *Report) {
 
 	if n == 0 {
 		r.Anchor("R-C16-5", "calls in package sqlparse that pass node fields to like-named parameters")
+	}
+}
+
+// c16StackedUnary: R-C16-7. Symbolic unary operators are written flush against
+// their operand; when the operand is itself a unary expression the two
+// operators meet, and "- -1" written as "--1" begins a comment: the rest of
+// the line (further select items, the remaining terms of a WHERE clause) is no
+// longer part of the statement the database sees.
+func c16StackedUnary(w *World, r *Report) {
+	r.Rule("R-C16-7", "stacked unary operators are kept apart: in printer.unaryExpr, on the path where the operand is itself an *ast.UnaryExpr, a separator is written between the operator and the operand", 1)
+
+	sp := w.pkg("internal/sqlparse")
+	if sp == nil {
+		return
+	}
+
+	fn := w.ssaFunc(sp, "printer.unaryExpr")
+	if fn == nil {
+		r.Anchor("R-C16-7", "sqlparse.printer.unaryExpr")
+
+		return
+	}
+
+	var ta *ssa.TypeAssert
+
+	var operand ssa.Instruction
+
+	allInstrs(fn, func(in ssa.Instruction) {
+		if t, ok := in.(*ssa.TypeAssert); ok && t.CommaOk && strings.HasSuffix(t.AssertedType.String(), "ast.UnaryExpr") {
+			ta = t
+		}
+
+		if c, ok := in.(*ssa.Call); ok && strings.HasSuffix(callID(c.Common()), "sqlparse.printer.expr") {
+			operand = in
+		}
+	})
+
+	key := "sqlparse.printer.unaryExpr|separator between stacked operators"
+
+	if operand == nil {
+		r.Anchor("R-C16-7", "the call that prints the operand in printer.unaryExpr")
+
+		return
+	}
+
+	if ta == nil {
+		r.Violate("R-C16-7", key, w.pos(fn.Pos()), "the operator is written flush against its operand whatever the operand is: `- -1` becomes `--1`, which begins a comment, and the rest of the line drops out of the statement (`SELECT a, - -b, c FROM t` is executed as `SELECT a,` … `FROM t`)")
+
+		return
+	}
+
+	// follow only the path on which the operand is a unary expression
+	cuts := cutEdges(fn, func(f Fact) bool {
+		e, ok := f.V.(*ssa.Extract)
+
+		return f.Kind == "false" && ok && e.Tuple == ssa.Value(ta) && e.Index == 1
+	})
+
+	isSeparator := func(i ssa.Instruction) bool {
+		c, ok := i.(*ssa.Call)
+		if !ok || !strings.HasSuffix(callID(c.Common()), "sqlparse.printer.write") || len(c.Call.Args) < 2 {
+			return false
+		}
+
+		s, isC := constString(c.Call.Args[1])
+
+		return isC && strings.TrimSpace(s) == "" && s != ""
+	}
+
+	if hit := pathAvoiding(ta, cuts, isSeparator, func(i ssa.Instruction) bool { return i == operand }); hit != nil {
+		r.Violate("R-C16-7", key, w.pos(operand.Pos()), "the operand of a unary operator that is itself a unary expression is printed without a separator after the outer operator")
+	} else {
+		r.Discharge("R-C16-7", key, w.pos(ta.Pos()), "a blank is written before a unary operand")
+	}
+}
+
+// c16RenderedTextNotEdited: R-C16-8. The layout of a nested statement comes
+// from the printer's own depth; once text has been rendered nothing in it can
+// be told apart any more (a newline inside a string literal looks like a line
+// break of the layout), so rendered text is only ever copied verbatim.
+func c16RenderedTextNotEdited(w *World, r *Report) {
+	r.Rule("R-C16-8", "rendered SQL is never edited as text: in internal/sqlparse no value computed from a strings.Builder's String() by any further call or operation is written into a printer (printer.write / Builder.WriteString); a verbatim copy is allowed", 10)
+
+	sp := w.pkg("internal/sqlparse")
+	if sp == nil {
+		return
+	}
+
+	isRendered := func(v ssa.Value) bool {
+		c, ok := v.(*ssa.Call)
+
+		return ok && strings.HasSuffix(callID(c.Common()), "strings.Builder.String")
+	}
+
+	for _, fn := range w.srcFuncs(sp) {
+		if !strings.HasPrefix(filepath.Base(w.pos(fn.Pos())), "format") {
+			continue
+		}
+
+		sites, bad := 0, 0
+
+		allInstrs(fn, func(in ssa.Instruction) {
+			c, ok := in.(*ssa.Call)
+			if !ok {
+				return
+			}
+
+			id := callID(c.Common())
+			if !strings.HasSuffix(id, "sqlparse.printer.write") && !strings.HasSuffix(id, "strings.Builder.WriteString") {
+				return
+			}
+
+			args := callArgs(c.Common())
+			if len(args) < 2 {
+				return
+			}
+
+			sites++
+
+			text := stripValue(args[1])
+			if isRendered(text) {
+				return
+			}
+
+			if derivesFrom(text, isRendered, func(string) bool { return true }) {
+				bad++
+
+				r.Violate("R-C16-8", fnKey(fn)+"|rendered text rewritten before it is written", w.pos(in.Pos()), "the text written here is computed from another builder's rendered output: a rewrite of rendered SQL cannot tell layout from content, so a newline inside a string literal or quoted identifier is changed along with the line breaks")
+			}
+		})
+
+		if sites > 0 && bad == 0 {
+			r.Discharge("R-C16-8", fnKey(fn)+"|writes only its own text", w.pos(fn.Pos()), fmt.Sprintf("%d write sites", sites))
+		}
 	}
 }
